@@ -544,6 +544,7 @@ class BasePool(typing.Generic[C]):
                 # Abort all waiters on this block and propagate the error, as
                 # we don't have a mapping between waiters and _connect() tasks
                 block.abort_waiters(e)
+                self._capacity_freed()
             else:
                 # We must retry immediately here (without sleeping), or _tick()
                 # will jump in and schedule more retries than what we expected.
@@ -629,6 +630,13 @@ class BasePool(typing.Generic[C]):
             dbname=block.dbname, event='disconnect', value=block.count_conns())
         await self._disconnect(conn, block)
         block.log_connection("discarded")
+        self._capacity_freed()
+
+    def _capacity_freed(self) -> None:
+        # Called when a connection slot became available other than through
+        # release(): a discarded connection finished disconnecting, or a
+        # connection attempt failed for good.
+        pass
 
 
 class Pool(BasePool[C]):
@@ -938,6 +946,18 @@ class Pool(BasePool[C]):
                 key=lambda b: b.count_conns_over_quota(),
                 reverse=True
             )
+
+    def _capacity_freed(self) -> None:
+        # Requests that arrived while the pool was at max capacity only
+        # queue up (see _acquire()), counting on a later release() or
+        # rebalance to get them a connection.  If the capacity was taken by
+        # connections that were on their way out, nothing else will ever
+        # serve those requests - give the freed capacity to them now.
+        while self._cur_capacity < self._max_capacity:
+            _, to_block = self._find_most_starving_block()
+            if to_block is None:
+                break
+            self._schedule_new_conn(to_block)
 
     def _should_free_conn(self, from_block: Block[C]) -> bool:
         # First, if we only manage one connection to one PostgreSQL DB --
